@@ -124,6 +124,8 @@ class ThreadsPart(object):
     k["line_budget"] = W.pick("lbud", [0, 10, 60, 400])
     k["fair"] = W.pick("fair", [64, 8, 32])
     k["stall_den"] = W.pick("stall", [0, 0, 10, 4])
+    # "slow node": the consumer thread stops being schedulable for a while
+    k["tstall_den"] = W.pick("tstall", [0, 0, 0, 20, 6])
     if self.hot_lines and W.chance("hot", 1, 3):
       k["hot_line"] = W.pick("hotline", self.hot_lines)
       k["hot_budget"] = W.pick("hotbudget", [1, 3, 8])
